@@ -9,3 +9,6 @@ func setMemLimit(bytes uint64) {
 	rl.Cur, rl.Max = bytes, bytes
 	syscall.Setrlimit(syscall.RLIMIT_AS, &rl)
 }
+
+// SetMemLimit is the exported form for helper processes.
+func SetMemLimit(bytes uint64) { setMemLimit(bytes) }
